@@ -87,8 +87,46 @@ class NamesOracle(history.Oracle):
                 exp = s.spaces[n]
             if got is not exp and got != exp:
                 raise Violation("C12/attribute-denotes-other-kind/" + op["op"], {"space": objpath(s), "name": n})
+        self.check_item(s, m, op)
         for ch in s.spaces.values():
             self.check_space(ch, m, op)
+
+    def check_item(self, s, m, op):
+        """The same precedence inside an ItemSpace of the space (and its dynamic children): a space-level reference wins
+        over a model-level one of the same name; parameters and references returned by the parameter formula win over both."""
+        from modelx.core.base import Interface
+        rs = self.mach.ref.space(objpath(s))
+        if rs is None or rs.formula is None or (rs.formula.get("ret") and "base" in rs.formula["ret"]):
+            return
+        args = [0 for p_, d in rs.formula["params"] if d is None]
+        try:
+            it = s(*args)
+        except Exception:
+            return
+        over = {p_ for p_, d in rs.formula["params"]}
+        ret = rs.formula.get("ret")
+        if ret and "refs" in ret:
+            over |= set(ret["refs"])
+
+        def walk(dyn, static, label):
+            for n in sorted(static._own_refs):
+                if n in over or n.startswith("_"):
+                    continue
+                v = static._own_refs[n]
+                if isinstance(v, Interface):
+                    continue
+                try:
+                    got = getattr(dyn, n)
+                except Exception as e:
+                    raise Violation("C12/dynamic-space-reference-not-accessible/" + op["op"], {"instance": label, "name": n, "exc": type(e).__name__})
+                self.ctx.count("dynamic_precedence_checks", 1, "reach")
+                if got is not v and got != v:
+                    raise Violation("C12/dynamic-space-reference-precedence/" + ("model-level-wins" if n in m.refs and (m.refs[n] is got or m.refs[n] == got) else "other"),
+                                    {"instance": label, "name": n, "got": repr(got)[:60], "space_level": repr(v)[:60], "op": strip(op)})
+            for cn in sorted(static.spaces):
+                if cn in dyn.spaces:
+                    walk(dyn.spaces[cn], static.spaces[cn], label + "." + cn)
+        walk(it, s, "%s[%s]" % (objpath(s), ", ".join(map(str, args))))
 
 
 def strip(op):
@@ -101,11 +139,12 @@ class C12(PropBase):
     rule = ("one case = one seeded history of member creation, deletion, renaming and base changes in which cells, "
             "reference and space names are drawn from ONE pool of 3-5 names so that direct and indirect clashes are "
             "frequent; after every operation, accepted or rejected, every space is checked: containers pairwise "
-            "disjoint, dir()/attribute access/refs view equal the containers, library self-checks pass; "
+            "disjoint, dir()/attribute access/refs view equal the containers (space-level references before model-level ones, also "
+            "inside an ItemSpace of the space and its dynamic children), library self-checks pass; "
             "non-trivial = the history contains an accepted base change or rename while at least two kinds of "
             "member exist; distinct = distinct event-log digest")
     tiers = {"quick": {"budget_s": 45, "timeout_s": 60}, "thorough": {"budget_s": 900, "timeout_s": 120}}
-    reach_probes = ["reach/states_checked", "reach/edit_rejected"]
+    reach_probes = ["reach/states_checked", "reach/edit_rejected", "reach/dynamic_precedence_checks"]
     assumptions = ["a model-level reference sharing a name with a cells or a space-level reference is legal shadowing"]
 
     def execute(self, ctx):
